@@ -28,6 +28,9 @@ pub trait Property {
     fn gen(seed: u64) -> (Self::Scn, &'static str, Option<String>);
     /// Rare, expensive scenarios (very large files); a fixed small number per batch.
     fn gen_jumbo(seed: u64) -> (Self::Scn, &'static str, Option<String>);
+    /// Tiny files (every one-byte file, two-byte files behind a few telling first bytes),
+    /// decoded both through the stream functions and through the path wrappers.
+    fn tiny_job(bytes: Vec<u8>) -> Self::Scn;
     fn run(s: &Self::Scn, record: bool) -> RunResult;
     fn shrink(s: &Self::Scn) -> Vec<Self::Scn>;
     fn stacks(s: &Self::Scn) -> Vec<String>;
@@ -49,6 +52,9 @@ impl Property for C13 {
     }
     fn gen_jumbo(seed: u64) -> (Self::Scn, &'static str, Option<String>) {
         pnm::gen_jumbo(seed)
+    }
+    fn tiny_job(bytes: Vec<u8>) -> Self::Scn {
+        pnm::PnmScenario { work: pnm::PnmWork::Raw { bytes }, writer: seams::WriterCfg::plain(), disk: vec![], reader: seams::ReaderCfg::plain(), via_path: true }
     }
     fn run(s: &Self::Scn, record: bool) -> RunResult {
         pnm::run(s, record)
@@ -99,6 +105,9 @@ impl Property for C14 {
     }
     fn gen_jumbo(seed: u64) -> (Self::Scn, &'static str, Option<String>) {
         obj::gen_jumbo(seed)
+    }
+    fn tiny_job(bytes: Vec<u8>) -> Self::Scn {
+        obj::ObjScenario { text: bytes, disk: vec![], reader: seams::ReaderCfg::plain(), via_path: true }
     }
     fn run(s: &Self::Scn, record: bool) -> RunResult {
         obj::run(s, record)
